@@ -302,7 +302,19 @@ class Ctx:
             for a in t.args:
                 self.assume(a)
             return
-        self.pc.append(t)
+        if t.op == '=>' and self._on_path(t.args[0]):
+            # `a and (a => b)` is how spec-mode conjunctions keep definedness: with a on the path, b is a plain fact
+            self.assume(t.args[1])
+            return
+        if t not in self.pc:
+            self.pc.append(t)
+
+    def _on_path(self, t):
+        if t.is_const:
+            return bool(t.val)
+        if t in self.pc:
+            return True
+        return t.op == 'and' and all(self._on_path(a) for a in t.args)
 
     def oblige(self, name, goal, kind='S', meta=None):
         if isinstance(goal, bool):
@@ -366,6 +378,8 @@ def truth_term(v):
     if isinstance(v, Sym):
         raise Unsupported('truth of %r' % v)
     if isinstance(v, (Closure, OpaqueFn)):
+        return tm.TRUE
+    if type(v).__name__ == 'MatchVal':
         return tm.TRUE
     if isinstance(v, OpaqueVal):
         raise Unsupported('truth of an opaque value')
@@ -1059,6 +1073,9 @@ class Interp:
         m = models.BUILTINS.get(_hashable_id(f))
         if m is not None:
             return m(self, *args, **kwargs)
+        if type(f).__name__ == 'builtin_function_or_method' and type(getattr(f, '__self__', None)).__name__ == 'Pattern' \
+                and f.__name__ in ('match', 'fullmatch') and len(args) == 1 and not kwargs and is_sym(args[0]):
+            return models.regex_match(self, f.__self__, f.__name__, args[0])
         if isinstance(f, Obj):
             c = self._class_lookup(f.cls, '__call__')
             if c is not None and interpretable(c):
